@@ -289,7 +289,9 @@ def check_case(case):
                         last[i] = now()
                     else:
                         gone.add(i)
-                if ok and resp.status_code == 200 and how == "run-step" and adapter is not None:
+                if ok and how == "run-step" and adapter is not None:
+                    # the handler writes the instance state after every run-step that reached the instance, also when the
+                    # instance has no session to step (its state is then empty, but it is externalised)
                     externalised.add(i)
                 if ok and how == "begin-session" and i in externalised and adapter is not None:
                     pass
